@@ -50,7 +50,7 @@ CLAIMED = {
              "regenerated statement table (c and c++): temporaries freed by the same entry on the same variable; every object "
              "created with new carries a release code deleting exactly that type. Tie: extracted model vs the generated C API of "
              "a class library built from /repo under AddressSanitizer, same operation sequences (first failing operation, class "
-             "of error, live-object counters).",
+             "of error, live-object counters). Further regenerated tables: the release codes stored by the generated C++ wrappers vs the destructor switch (each code releases the pointer's own type with the matching deallocator; new => code <> 0), and the Python wrapper statements (the error exit path releases what the normal exit path releases).",
         note="Trusted: Coq kernel, extraction, OCaml driver, Python harness, tools/cgen/cap (subject library + C++ driver), g++ "
              "AddressSanitizer. Not modelled: when Fortran finalisers / Python GC release a handle; Python reference counts on "
              "fail paths; bounds of string helpers are C10's theorems.",
@@ -245,7 +245,7 @@ CLAIMED = {
              "interoperable; the capsule and array-descriptor structs have the same member order and interoperable member types; "
              "the SH_TYPE constant tables are equal. Search/validation: gfortran -fc-prototypes output for every generated module "
              "of corpus entries and generated libraries compared with the generated C prototypes (count, order, kind and size, "
-             "value vs reference, struct layout); modules must compile.",
+             "value vs reference, struct layout); modules must compile. Interface-text rules: no default-kind dummies; descriptor dummies (assumed rank / shape / length) are bound to CFI_cdesc_t parameters.",
         note="Trusted: Coq kernel, the interoperability rules written in dyn/C04_tables.v (the specification, validated against "
              "gfortran's own mapping), tools/gen_tables.py, tools/protocmp.py, gfortran. Not decided: descriptor (CFI) arguments "
              "(gfortran 12 does not render them), bind(C) names with no prototype available (user functions without headers).",
